@@ -106,6 +106,7 @@ type op =
   | OpRoute of params * bool * fprow list * fprow list
   | OpAccess of params * fprow list
   | OpIndex of nat
+  | OpOptimize of z * (nat * z * z) * (nat * z * z) * (nat * nat * nat * z * z) list
 
 let read_ops () =
   let ops = ref [] in
@@ -126,9 +127,24 @@ let read_ops () =
          let rows = counted row in
          ops := OpAccess (p, rows) :: !ops
        | "index" -> let sc = nat () in ops := OpIndex sc :: !ops
+       | "optimize" ->
+         let minw = zz () in
+         let an = nat () in let aw = zz () in let ad = zz () in
+         let en = nat () in let ew = zz () in let ed = zz () in
+         let legs = counted (fun () -> let t = nat () in let es = nat () in let xs = nat () in let w = zz () in let dd = zz () in (t, es, xs, w, dd)) in
+         ops := OpOptimize (minw, (an, aw, ad), (en, ew, ed), legs) :: !ops
        | t -> failwith ("unexpected op " ^ t))
   done;
   List.rev !ops
+
+let walk_js w dd = { js_enter = None; js_exit = None; js_trip = None; js_walk = w; js_same = false; js_dist = dd }
+let journey_of d aw ad ew ed legs =
+  let ls = List.map (fun (t, es, xs, w, dd) ->
+      match find_conn d t es, find_conn d t xs with
+      | Some en, Some ex -> Some { js_enter = Some en; js_exit = Some ex; js_trip = Some t; js_walk = w; js_same = false; js_dist = dd }
+      | _, _ -> None) legs in
+  if List.exists (fun x -> x = None) ls then None
+  else Some (walk_js aw ad :: List.filter_map (fun x -> x) ls @ [ walk_js ew ed ])
 
 let run_model d ops =
   List.iter (fun op ->
@@ -158,6 +174,19 @@ let run_model d ops =
                ps "access ok"; pi (List.length l); pz total;
                List.iter (fun a -> ps " |"; pn a.an_node; pz a.an_time; pz a.an_ttt; pz a.an_ntr) l
              | o -> print_fail "access" o))
+       | OpOptimize (_, (_, aw, ad), (_, ew, ed), legs) ->
+         (match journey_of d aw ad ew ed legs with
+          | None -> ps "optimize badinput"
+          | Some js ->
+            (match optimize (oPT_FUEL d) d js [] [] with
+             | OptDone (js1, used) ->
+               ps "optimize ok"; List.iter pn used;
+               List.iter (fun j ->
+                   match j.js_enter, j.js_exit, j.js_trip with
+                   | Some en, Some ex, Some t -> ps " |"; pn t; pn en.c_seq; pn ex.c_seq; pz j.js_walk; pz j.js_dist
+                   | _ -> ps " | W"; pz j.js_walk; pz j.js_dist) js1
+             | OptUB -> ps "optimize ub 1"
+             | OptHang -> ps "optimize hang"))
        | OpIndex sc ->
          (match find_scenario d sc with
           | None -> ps "index noscenario"
@@ -205,6 +234,7 @@ let parse_route_tokens (toks : string list) : route option =
      | _ -> None)
   | [] -> None
 
+let max_int_c = 2147483647
 let words s = List.filter (fun x -> x <> "") (String.split_on_char ' ' s)
 let v01 bo = if bo then "1" else "0"
 let opt_s = function None -> "none" | Some z -> string_of_int (int_of_z z)
@@ -336,6 +366,32 @@ let run_oracle d ops implfile =
                Printf.printf "v access dom=%s map=%s noroute C07=%s exp_reason=%d" (v01 dom) (v01 (refmap = []))
                  (if wf && wft then v01 (ios r = expected) else "-") expected
              | _ -> Printf.printf "v access other %s" line))
+       | OpOptimize (minw, (an, aw, ad), (en, ew, ed), legs) ->
+         (* validity of the journey before and after the clean-up rewrites, judged on the routes that the
+            model's emit produces from them (scenario 1, no limits) *)
+         let p = { q_scenario = nat_of_int 1; q_time = Z0; q_minw = minw; q_maxtt = z_of_int max_int_c; q_maxacc = z_of_int max_int_c;
+                   q_maxegr = z_of_int max_int_c; q_maxtr = z_of_int max_int_c; q_maxfw = z_of_int (-1); q_fwd = false; q_except_lines = [] } in
+         (match find_scenario d (nat_of_int 1), journey_of d aw ad ew ed legs with
+          | Some s, Some js_in ->
+            let acc = [ { fp_node = an; fp_time = aw; fp_dist = ad } ] and egr = [ { fp_node = en; fp_time = ew; fp_dist = ed } ] in
+            let dep_of js = (match js with _ :: j :: _ -> (match j.js_enter with Some b -> int_of_z b.c_dep - int_of_z (minw_true p b) - int_of_z aw | None -> 0) | _ -> 0) in
+            let valid js = valid_itinerary_b d s p acc egr (emit d p (z_of_int (dep_of js)) js) in
+            let vin = valid js_in in
+            (match toks with
+             | "optimize" :: "ok" :: rest ->
+               let groups = split_on "|" rest in
+               let used = (match groups with u :: _ -> u | [] -> []) in
+               let out_legs = List.filter_map (fun g -> match g with
+                   | [ t; es; xs; w; dd ] when t <> "W" -> Some (ns t, ns es, ns xs, zs w, zs dd)
+                   | _ -> None) (match groups with _ :: r -> r | [] -> []) in
+               (match journey_of d aw ad ew ed out_legs with
+                | Some js_out ->
+                  let vout = valid js_out in
+                  Printf.printf "v optimize dom=%s in=%s out=%s used=%s C01=%s" (v01 wf) (v01 vin) (v01 vout) (String.concat "," used)
+                    (if wf && vin then v01 vout else "-")
+                | None -> Printf.printf "v optimize dom=%s in=%s out=unparsable C01=%s" (v01 wf) (v01 vin) (if wf && vin then "0" else "-"))
+             | _ -> Printf.printf "v optimize dom=%s in=%s other C01=-" (v01 wf) (v01 vin))
+          | _, _ -> print_string "v optimize badinput C01=-")
        | OpIndex _ -> print_string "v index");
       print_newline ()) ops;
   close_in ic
